@@ -86,11 +86,21 @@ def fix_char_shape(F):
         else:
             info["problems"].append("statement outside the fragment: " + tir.pretty(s)[:80])
     tail = L.strip_try(val.get("tail") or {}) if val.get("k") == "Block" else val
-    if tail.get("k") == "Match" and mnode is None and L.local_name(tail["scrut"]) == var:
+
+    def scrut_var(e):
+        """the local a scrutinee denotes, looking through char <-> u32 conversions"""
+        e = strip(e)
+        if e.get("k") == "Call" and (declared(e) or "").endswith("From::from") and len(e["args"]) == 1 and e.get("ty") == "u32":
+            return L.local_name(e["args"][0]), True
+        if e.get("k") == "Cast" and e.get("ty") == "u32":
+            return L.local_name(e["e"]), True
+        return L.local_name(e), False
+    sv, conv = scrut_var(tail["scrut"]) if tail.get("k") == "Match" else (None, False)
+    if tail.get("k") == "Match" and mnode is None and sv == var:
         mnode, mvar = tail, var
         info["out_conv"] = "direct"
         if var == cname:
-            info["in_conv"] = "direct"      # the match is on the char itself
+            info["in_conv"] = "direct"      # the match is on the char itself (or on its code point computed in place)
     elif tail.get("k") == "MethodCall" and tail["method"] in ("unwrap", "expect"):
         c = strip(tail["recv"])
         if c.get("k") == "Call" and (declared(c) or "").endswith("TryFrom::try_from") and L.local_name(c["args"][0]) == var and "char" in (c.get("ty") or ""):
@@ -104,6 +114,9 @@ def fix_char_shape(F):
             continue
         pats = p["pats"] if p.get("k") == "Or" else [p]
         for q in pats:
+            alias = None
+            if q.get("k") == "Bind" and isinstance(q.get("sub"), dict):
+                alias, q = q.get("name"), q["sub"]       # `code @ 0xff01..=0xff5e`: the binding is the matched code point
             if q.get("k") == "Range":
                 lo, hi = q["lo"].get("v"), q["hi"].get("v")
                 if "Excluded" in (q.get("end") or ""):
@@ -112,12 +125,18 @@ def fix_char_shape(F):
                 lo = hi = q["e"]["v"]
             elif q.get("k") in ("Wild", "Bind"):
                 f = affine(a["body"], q.get("name") if q.get("k") == "Bind" else mvar, F)
+                if f is None:
+                    f = affine(a["body"], cname, F)      # `_ => c`: the original char is the same code point
                 info["default_identity"] = f == (1, 0)
                 continue
             else:
                 info["problems"].append("pattern outside the fragment")
                 continue
             f = affine(a["body"], mvar, F)
+            if f is None and alias:
+                f = affine(a["body"], alias, F)
+            if f is None and cname != mvar:
+                f = affine(a["body"], cname, F)
             if f is None or f[0] not in (0, 1):
                 info["problems"].append("arm body is not affine in the code point: " + tir.pretty(a["body"])[:60])
                 continue
